@@ -23,14 +23,16 @@ BUDGET = {
     "quick": {"cases": 9600, "seconds": 90, "shards": 8},
     "thorough": {"cases": 200000, "seconds": 900, "shards": 16},
 }
-REQUIRED_OBS = ["exhaustive_small_graph_cases", "queries_judged", "early_exit_taken", "full_scan", "tie_label_set>1", "query_is_training_copy", "pre_computed_queries", "semi_queries"]
+REQUIRED_OBS = ["classifier_loaded_into_used_object", "exhaustive_small_graph_cases", "queries_judged", "early_exit_taken", "full_scan", "tie_label_set>1", "query_is_training_copy", "pre_computed_queries", "semi_queries"]
 MIN_NONTRIVIAL = 100
 
 
 def generate(rng, tier, idx):
     semi = idx % 3 == 2
     metrics = gen.SYMMETRIC_DISSIMILARITIES if idx % 2 else gen.SAFE_METRICS
-    return supcase.gen_case(rng, tier, semi=semi, metrics=metrics)
+    c = supcase.gen_case(rng, tier, semi=semi, metrics=metrics)
+    c["via_load"] = bool(rng.random() < 0.08) and not c.get("pre")
+    return c
 
 
 def admissible(model, R):
@@ -60,6 +62,29 @@ def check(case):
             return res.reject("library-domain-error")
         return res.reject("fit-aborted:" + type(o.fit.exc).__name__)
     m = o.model
+    if case.get("via_load"):
+        # the judged classifier arrives by load() into an object that has already been fitted on OTHER data and has predicted
+        import os
+        import shutil
+        import tempfile
+        from ..snap import build_model
+        tmp = tempfile.mkdtemp(prefix="c03_")
+        try:
+            safe_call(m.save, os.path.join(tmp, "b.pkl"))          # saved before it ever predicted
+            used = build_model(case["model"], case["metric"])
+            Xo = np.array(o.X, dtype=float)[::-1] * 1.7 + 0.3
+            if case["model"] == "semi":
+                safe_call(used.fit, Xo, o.Y[::-1].copy(), o.U.copy())
+            else:
+                safe_call(used.fit, Xo, o.Y[::-1].copy())
+            safe_call(used.predict, o.Q.copy())
+            l = safe_call(used.load, os.path.join(tmp, "b.pkl"))
+        finally:
+            shutil.rmtree(tmp, ignore_errors=True)
+        if l.ok:
+            m = used
+            o.model = used
+            res.see("classifier_loaded_into_used_object")
     n = m.subgraph.n_nodes
     counts = []
     if not m.pre_computed_distance:
